@@ -7,7 +7,7 @@ use std::{
 };
 
 use actix_rt::net::TcpStream;
-use actix_service::Service;
+use actix_service::{Service, ServiceFactory};
 use actix_tls::connect::{
     tcp::TcpConnector, ConnectError, ConnectInfo, Connection, Connector, Host, Resolve, Resolver,
 };
@@ -439,11 +439,40 @@ pub async fn c19conn(line: &str) -> String {
         Err(e) => show_err(&e),
     };
 
+    // Each of the three connect services has two public ways in: the inherent `service()` and the `ServiceFactory` impl
+    // (`new_service(())`, what `pipeline_factory` / `and_then` compositions use), on the value or on a clone of it.
+    // Which one a case uses is derived from the case text.
+    let entry = line.bytes().fold(0usize, |a, b| a.wrapping_mul(31).wrapping_add(b as usize)) % 4;
     let fut = async {
         match svc {
-            "c" => show_conn(Connector::new(resolver).service().call(info).await),
-            "t" => show_conn(TcpConnector::default().service().call(info).await),
-            "r" => match resolver.service().call(info).await {
+            "c" => {
+                let c = Connector::new(resolver);
+                let c = if entry & 2 != 0 { c.clone() } else { c };
+                if entry & 1 != 0 {
+                    let s = <Connector as ServiceFactory<ConnectInfo<String>>>::new_service(&c, ()).await.unwrap();
+                    show_conn(s.call(info).await)
+                } else {
+                    show_conn(c.service().call(info).await)
+                }
+            }
+            "t" => {
+                let c = TcpConnector::default();
+                if entry & 1 != 0 {
+                    let s = <TcpConnector as ServiceFactory<ConnectInfo<String>>>::new_service(&c, ()).await.unwrap();
+                    show_conn(s.call(info).await)
+                } else {
+                    show_conn(c.service().call(info).await)
+                }
+            }
+            "r" => match {
+                let r = if entry & 2 != 0 { resolver.clone() } else { resolver };
+                if entry & 1 != 0 {
+                    let s = <Resolver as ServiceFactory<ConnectInfo<String>>>::new_service(&r, ()).await.unwrap();
+                    s.call(info).await
+                } else {
+                    r.service().call(info).await
+                }
+            } {
                 Ok(ci) => {
                     let a: Vec<String> = ci.addrs().map(|a| show_addr(a, &slots)).collect();
                     format!("INFO addrs={} port={} req={}", a.join(""), show_port(ci.port(), &slots), (ci.request() == &host) as u8)
@@ -653,7 +682,29 @@ where
             }
         }};
     }
-    if be == "r" {
+    // the factory entry point (`TlsConnector::new(cfg)` + `ServiceFactory::new_service`, on a clone) for every other payload
+    let via_factory = payload.len() % 2 == 1;
+    if be == "r" && via_factory {
+        use actix_tls::connect::rustls_0_23::TlsConnector as F;
+        let f = F::new(rustls_client_config(pki)).clone();
+        run!(<F as ServiceFactory<Connection<String, IO>>>::new_service(&f, ()).await.unwrap())
+    } else if be == "r22" && via_factory {
+        use actix_tls::connect::rustls_0_22::TlsConnector as F;
+        let f = F::new(rustls22_client_config(pki)).clone();
+        run!(<F as ServiceFactory<Connection<String, IO>>>::new_service(&f, ()).await.unwrap())
+    } else if be == "r21" && via_factory {
+        use actix_tls::connect::rustls_0_21::TlsConnector as F;
+        let f = F::new(rustls21_client_config(pki)).clone();
+        run!(<F as ServiceFactory<Connection<String, IO>>>::new_service(&f, ()).await.unwrap())
+    } else if be == "r20" && via_factory {
+        use actix_tls::connect::rustls_0_20::TlsConnector as F;
+        let f = F::new(rustls20_client_config(pki)).clone();
+        run!(<F as ServiceFactory<Connection<String, IO>>>::new_service(&f, ()).await.unwrap())
+    } else if be == "n" && via_factory {
+        use actix_tls::connect::native_tls::TlsConnector as F;
+        let f = F::new(native_connector(pki)).clone();
+        run!(<F as ServiceFactory<Connection<String, IO>>>::new_service(&f, ()).await.unwrap())
+    } else if be == "r" {
         run!(actix_tls::connect::rustls_0_23::TlsConnector::service(rustls_client_config(pki)))
     } else if be == "r22" {
         run!(actix_tls::connect::rustls_0_22::TlsConnector::service(rustls22_client_config(pki)))
@@ -664,7 +715,13 @@ where
     } else if be == "n" {
         run!(actix_tls::connect::native_tls::TlsConnector::new(native_connector(pki)))
     } else {
-        let svc = actix_tls::connect::openssl::TlsConnector::service(openssl_connector(pki));
+        use actix_tls::connect::openssl::{TlsConnector as F, TlsConnectorService};
+        let svc: TlsConnectorService = if via_factory {
+            let f = F::new(openssl_connector(pki)).clone();
+            <F as ServiceFactory<Connection<String, IO>>>::new_service(&f, ()).await.unwrap()
+        } else {
+            F::service(openssl_connector(pki))
+        };
         let fut = match std::panic::catch_unwind(std::panic::AssertUnwindSafe(|| svc.call(conn))) {
             Ok(f) => f,
             Err(_) => return "PANIC".into(),
